@@ -320,20 +320,24 @@ func (c *c04state) shape() string {
 			}
 		}
 	}
-	// the last registration that changed what is registered on the ledger
+	// the last registration that changed what is registered on the ledger; what
+	// counts is when the watcher collected the states for it: it retrieves the
+	// parent and each sub-channel (1 ms wait each, plus yields) just before it
+	// issues the call, so a state enabled within 3 ms before the call was issued
+	// may or may not have been seen (may-zone)
 	var lastReg time.Duration
 	any := false
 	var maxV uint64
 	for _, r := range p.w.Ledger.CallsOf("Register", id) {
 		if r.Err == "" && (!any || r.Version > maxV) {
-			lastReg, any, maxV = r.At, true, r.Version
+			lastReg, any, maxV = r.Issued-3*time.Millisecond, true, r.Version
 		}
 	}
 	if !any {
 		return "@other"
 	}
 	// any channel of the tree: did the honest client enable a state after the
-	// last successful registration?
+	// states for the last effective registration were collected?
 	ids := []channel.ID{id}
 	for _, si := range p.subs {
 		ids = append(ids, si.id)
